@@ -290,6 +290,18 @@ def run(algo, data, rank, n_iter_max, opts=None, seed=0, tol=None, init=None, ca
         ROUTES["verbose"] = ROUTES.get("verbose", 0) + 1
         with contextlib.redirect_stdout(io.StringIO()):
             return run(algo, data, rank, n_iter_max, dict(opts, verbose=1), seed, tol, init, callback)
+    if seed % 16 == 9 and not opts.get("_plain_tenalg"):
+        # the same run with the other tensor-algebra backend selected (einsum formulations of the mode products, Khatri-Rao and
+        # MTTKRP): a property of a decomposition does not depend on which of the two computes its products
+        from tensorly import tenalg
+        prev = tenalg.get_backend()
+        ROUTES["einsum-tenalg"] = ROUTES.get("einsum-tenalg", 0) + 1
+        tenalg.set_backend("einsum")
+        try:
+            return run(algo, data, rank, n_iter_max, dict(opts, _plain_tenalg=True), seed, tol, init, callback)
+        finally:
+            tenalg.set_backend(prev)
+    opts.pop("_plain_tenalg", None)
     if algo in CLASS_OF and seed % 4 == 0:
         r = _run_class(algo, data, rank, n_iter_max, opts, seed, tol, init, callback)
         if r is not None:
@@ -400,10 +412,16 @@ def option_sets(rs, algo, order):
             o["normalize_factors"] = True
         return which, o
     if algo == "nn_tucker_hals":
-        which = gen.choice(rs, ["fista", "fista", "active_set", "normalize"])
+        which = gen.choice(rs, ["fista", "fista", "active_set", "normalize", "sparsity", "core-sparsity"])
         o = {"init": gen.choice(rs, ["svd", "random"]), "algorithm": "active_set" if which == "active_set" else "fista"}
         if which == "normalize":
             o["normalize_factors"] = True
+        if which == "sparsity":       # l1 penalties on (some of) the factors: the reported value stays the reconstruction error
+            o["sparsity_coefficients"] = [float(gen.choice(rs, [0.05, 0.5])) if rs.rand() < 0.7 else None for _ in range(order)]
+            if not any(o["sparsity_coefficients"]):
+                o["sparsity_coefficients"][0] = 0.1
+        if which == "core-sparsity":
+            o["core_sparsity_coefficient"] = float(gen.choice(rs, [0.05, 0.5]))
         return which, o
     if algo == "parafac2":
         which = gen.choice(rs, ["plain", "linesearch", "nn_modes", "nn_modes+linesearch", "normalize"])
